@@ -169,7 +169,7 @@ def random_matrix(rng, n, kind=None, vmode="float", cplx=False, dominant=False, 
             for k in range(M.colptr[j], M.colptr[j + 1]):
                 if M.rowind[k] == j:
                     base = max(rs[j], cs[j]) if mode == "both" else (rs[j] if mode == "row" else cs[j])
-                    d = float(math.ceil(base + 1 + rng.random() * 3))
+                    d = float(math.ceil(base * 1.25 + 1 + rng.random() * 3))     # margin survives rounding to single precision
                     if mode == "both":
                         M.vals[k] = (d, 0.0) if cplx else d
                     else:
